@@ -209,24 +209,49 @@ def read_p8(data):
     return res
 
 
-def write_p8(version, code, mem, label=None):
-    """Reference .p8 writer (all sections, like PICO-8 before it began eliding empty ones)."""
+EMPTY_MUSIC_LINE = b'00 41424344\n'
+
+
+def _elide(lines, empty_line):
+    """Drop trailing rows that are empty, as PICO-8 (0.1.12+) does when it saves a .p8."""
+    lines = list(lines)
+    while lines and lines[-1] == empty_line:
+        lines.pop()
+    return lines
+
+
+def write_p8(version, code, mem, label=None, elide=False):
+    """Reference .p8 writer.  elide=False: all rows of all sections (older PICO-8); elide=True: trailing empty
+    rows of gfx/gff/map/music are omitted and a section left without rows is omitted altogether (newer PICO-8)."""
     out = [HEADER, b'version %d\n' % version, b'__lua__\n']
     text = p8scii_to_text(code).encode('utf-8')
     out.append(text if (text.endswith(b'\n') or not text) else text + b'\n')
-    out.append(b'__gfx__\n')
-    out += enc_gfx(mem[GFX:MAP])
+    gfx = enc_gfx(mem[GFX:MAP])
+    gff = enc_plain(mem[GFF:MUSIC], 128)
+    mp = enc_plain(mem[MAP:GFF], 128)
+    music = enc_music(mem[MUSIC:SFX])
+    if elide:
+        gfx = _elide(gfx, b'0' * 128 + b'\n')
+        gff = _elide(gff, b'0' * 256 + b'\n')
+        mp = _elide(mp, b'0' * 256 + b'\n')
+        music = _elide(music, EMPTY_MUSIC_LINE)
+    if gfx or not elide:
+        out.append(b'__gfx__\n')
+        out += gfx
     if label is not None:
         out.append(b'__label__\n')
         out += enc_gfx(label)
-    out.append(b'__gff__\n')
-    out += enc_plain(mem[GFF:MUSIC], 128)
-    out.append(b'__map__\n')
-    out += enc_plain(mem[MAP:GFF], 128)
+    if gff or not elide:
+        out.append(b'__gff__\n')
+        out += gff
+    if mp or not elide:
+        out.append(b'__map__\n')
+        out += mp
     out.append(b'__sfx__\n')
     out += enc_sfx(mem[SFX:CODE])
-    out.append(b'__music__\n')
-    out += enc_music(mem[MUSIC:SFX])
+    if music or not elide:
+        out.append(b'__music__\n')
+        out += music
     out.append(b'\n')
     return b''.join(out)
 
